@@ -19,7 +19,8 @@ The model mirrors the REPAIRED code (fixes/C07-*.diff):
 * a UTF-16 byte-order mark is recognised whatever follows it except `00 00` (unrepaired: only when
   at least four bytes are present, so `b"\xff\xfe"` alone decoded as windows-1252 "ÿþ").
 
-Not modelled: `chardet` (absent; `chardet_module is None`), the smart-quote hook of `_convert_from`
+`_chardet_dammit` is a parameter (`Codecs.chardet`; `fun _ => none` when no chardet-like module is
+installed). Not modelled: the smart-quote hook of `_convert_from`
 (inert for `smart_quotes_to=None`; property C19), `str.lower()` beyond ASCII (names are ASCII). -/
 namespace BS.EncodingIn
 
@@ -37,6 +38,8 @@ def utf32be : Name := [117, 116, 102, 45, 51, 50, 98, 101]
 def utf32le : Name := [117, 116, 102, 45, 51, 50, 108, 101]
 /-- `"ascii"`, dammit.py:822 -/
 def ascii : Name := [97, 115, 99, 105, 105]
+/-- `"windows-1252"`, dammit.py:641 -/
+def windows1252 : Name := [119, 105, 110, 100, 111, 119, 115, 45, 49, 50, 53, 50]
 
 /-- What the `codecs` module does, as parameters. -/
 structure Codecs where
@@ -46,6 +49,21 @@ structure Codecs where
   decodeStrict : Name → Bytes → Option PStr
   /-- `str(data, name, "replace")`; `none` = raised -/
   decodeReplace : Name → Bytes → Option PStr
+  /-- `_chardet_dammit` (dammit.py:71-76): the guess of chardet / cchardet / charset_normalizer for the
+      BOM-stripped bytes. With none of them installed (`chardet_module is None`, the situation of this
+      repository's environment) it is `fun _ => none`. -/
+  chardet : Bytes → Option Name := fun _ => none
+
+/-- Laws of CPython's codec machinery that the totality statements rest on. They are HYPOTHESES of those
+    theorems (never axioms); the harness tests each of them on every case's data with the real codecs:
+    `codecs.lookup` ignores case, utf-8 and windows-1252 exist, and decoding with `errors="replace"`
+    under either of them cannot fail. -/
+structure Lawful (C : Codecs) : Prop where
+  lookup_ignores_case : ∀ n, C.codecExists n = C.codecExists (lower n)
+  utf8_exists : C.codecExists utf8 = true
+  cp1252_exists : C.codecExists windows1252 = true
+  utf8_replace_total : ∀ d, (C.decodeReplace utf8 d).isSome = true
+  cp1252_replace_total : ∀ d, (C.decodeReplace windows1252 d).isSome = true
 
 /-! ## strip_byte_order_mark (dammit.py:645-673, repaired) -/
 
@@ -97,9 +115,8 @@ def litMeta : Bytes := [109, 101, 116, 97]                                -- "me
 
 /-- `?>` occurs in `l` -/
 def containsQmGt : Bytes → Bool
-  | 63 :: 62 :: _ => true
-  | _ :: t => containsQmGt t
   | [] => false
+  | x :: t => (x == 63 && t.head? == some 62) || containsQmGt t
 
 /-- lazy `(.*?)['"].*\?>`: the shortest prefix that is followed by a quote after which `?>` still
     occurs on the line. `acc` = the group so far, reversed. -/
@@ -218,17 +235,18 @@ def yieldAll (excl : List Name) : List Name → List Name → List Name × List 
     let rest := yieldAll excl es r.2
     (if r.1 then e :: rest.1 else rest.1, rest.2)
 
-/-- the generator, run to exhaustion: known definite, BOM-sniffed, user, declared, then the
-    last-ditch names (`Gen.fallbackEncodings` = utf-8, windows-1252). -/
-def encodingsImpl (known : List Name) (bom : Option Name) (user : List Name) (declared : Option Name)
+/-- the generator, run to exhaustion: known definite, BOM-sniffed, user, declared, chardet's guess, then
+    the last-ditch names (`Gen.fallbackEncodings` = utf-8, windows-1252). -/
+def encodingsImpl (known : List Name) (bom : Option Name) (user : List Name) (declared chardet : Option Name)
     (excl : List Name) : List Name :=
   let tried : List Name := []                                   -- :600
   let y1 := yieldAll excl known tried                           -- :603-605
   let y2 := yieldAll excl bom.toList y1.2                       -- :609-612
   let y3 := yieldAll excl user y2.2                             -- :616-618
   let y4 := yieldAll excl declared.toList y3.2                  -- :622-629
-  let y5 := yieldAll excl Gen.fallbackEncodings y4.2            -- :641-643
-  y1.1 ++ y2.1 ++ y3.1 ++ y4.1 ++ y5.1
+  let y5 := yieldAll excl chardet.toList y4.2                   -- :633-638
+  let y6 := yieldAll excl Gen.fallbackEncodings y5.2            -- :641-643
+  y1.1 ++ y2.1 ++ y3.1 ++ y4.1 ++ y5.1 ++ y6.1
 
 /-! ### documented meaning of the candidate list -/
 
@@ -243,13 +261,13 @@ decreasing_by
   exact Nat.lt_succ_of_le (List.length_filter_le _ _)
 
 /-- all sources in the documented order -/
-def sources (known : List Name) (bom : Option Name) (user : List Name) (declared : Option Name) : List Name :=
-  known ++ bom.toList ++ user ++ declared.toList ++ Gen.fallbackEncodings
+def sources (known : List Name) (bom : Option Name) (user : List Name) (declared chardet : Option Name) : List Name :=
+  known ++ bom.toList ++ user ++ declared.toList ++ chardet.toList ++ Gen.fallbackEncodings
 
 /-- the documented candidate list: sources in order, minus excluded, each (ignoring case) once -/
-def candidates (known : List Name) (bom : Option Name) (user : List Name) (declared : Option Name)
+def candidates (known : List Name) (bom : Option Name) (user : List Name) (declared chardet : Option Name)
     (excl : List Name) : List Name :=
-  dedupLower ((sources known bom user declared).filter fun e => !excl.contains (lower e))
+  dedupLower ((sources known bom user declared chardet).filter fun e => !excl.contains (lower e))
 
 /-! ## find_codec / _codec (dammit.py:988-1014) -/
 
@@ -349,13 +367,13 @@ deriving Repr
 def exclSet (a : Args) : List Name := a.exclude.map lower
 
 /-- `EncodingDetector(...).encodings` given the BOM-sniffed and the declared encoding -/
-def detectorEncodings (a : Args) (bom declared : Option Name) : List Name :=
-  encodingsImpl (a.known ++ a.override) bom a.user declared (exclSet a)
+def detectorEncodings (a : Args) (bom declared chardet : Option Name) : List Name :=
+  encodingsImpl (a.known ++ a.override) bom a.user declared chardet (exclSet a)
 
 /-- `UnicodeDammit.__init__` on a non-empty byte string whose BOM has been stripped, `declared` being
     what `find_declared_encoding` returns for it. -/
 def dammitBytes (C : Codecs) (a : Args) (data : Bytes) (bom declared : Option Name) : Result :=
-  let encs := detectorEncodings a bom declared
+  let encs := detectorEncodings a bom declared (C.chardet data)                -- :633-634 (`_chardet_dammit(self.markup)`)
   let declHtml := if a.isHtml then declared else none                        -- :984-986
   match pass1 C data encs {} with                                            -- :810-815
   | (st, some u) => ⟨some u, st.enc, declHtml, false, st.tried⟩              -- :845
@@ -372,6 +390,11 @@ def dammit (C : Codecs) (a : Args) : Markup → Result
     let declared := findDeclared sb.1 a.isHtml
     if b.isEmpty then ⟨some [], none, if a.isHtml then declared else none, false, []⟩   -- :800-804 (b"")
     else dammitBytes C a sb.1 sb.2 declared
+
+/-- the documented candidate list of `UnicodeDammit(markup=b, …)` -/
+def candidatesOf (C : Codecs) (a : Args) (b : Bytes) : List Name :=
+  candidates (a.known ++ a.override) (stripBom b).2 a.user (findDeclared (stripBom b).1 a.isHtml)
+    (C.chardet (stripBom b).1) (exclSet a)
 
 /-! ### documented meaning of the result -/
 
@@ -407,16 +430,36 @@ def knownOfFromEncoding : Option Name → List Name
   | some e => if e.isEmpty then [] else [e]
   | none => []
 
-/-- `BeautifulSoup(markup, "html.parser", from_encoding=…, exclude_encodings=…)` up to the feed:
-    bs4/__init__.py:334-342 (from_encoding ignored for str), _htmlparser.py:402-447. -/
-def prepareMarkup (C : Codecs) (m : Markup) (fromEncoding : Option Name) (exclude : List Name) : Prepared :=
+/-- `prepare_markup(markup, user_specified_encoding, document_declared_encoding, exclude_encodings)`
+    (_htmlparser.py:377-447). `BeautifulSoup(markup, "html.parser", from_encoding=…, exclude_encodings=…)`
+    calls it with `document_declared_encoding=None` (bs4/__init__.py:467-469), after dropping
+    `from_encoding` for str markup (:334-342 — the str branch below ignores it anyway). -/
+def prepareMarkupFull (C : Codecs) (m : Markup) (fromEncoding documentDeclared : Option Name) (exclude : List Name) : Prepared :=
   match m with
   | .str s => .ok s none none false                                          -- :402-405
   | .bytes _ =>
     let known := knownOfFromEncoding fromEncoding                            -- :409-415
-    let r := dammit C { known := known, user := [], exclude := exclude, isHtml := true } m   -- :423-429
+    let user := knownOfFromEncoding documentDeclared                         -- :417-421 (same truthiness test)
+    let r := dammit C { known := known, user := user, exclude := exclude, isHtml := true } m   -- :423-429
     match r.text with
     | none => .rejected                                                      -- :431-440
     | some t => .ok t r.originalEncoding r.declaredHtml r.containsReplacement -- :442-447
+
+/-- the constructor's call -/
+def prepareMarkup (C : Codecs) (m : Markup) (fromEncoding : Option Name) (exclude : List Name) : Prepared :=
+  prepareMarkupFull C m fromEncoding none exclude
+
+/-- `from_encoding = from_encoding or deprecated_argument("fromEncoding", "from_encoding")`
+    (bs4/__init__.py:334-336): the deprecated keyword is consulted only when `from_encoding` is falsy
+    (None or ""). -/
+def effectiveFromEncoding (fromEncoding fromEncodingOld : Option Name) : Option Name :=
+  match fromEncoding with
+  | some e => if e.isEmpty then fromEncodingOld else some e
+  | none => fromEncodingOld
+
+/-- `BeautifulSoup(markup, "html.parser", from_encoding=…, fromEncoding=…, exclude_encodings=…)` up to the
+    feed (bs4/__init__.py:334-342, 462-469). -/
+def constructorPrepare (C : Codecs) (m : Markup) (fromEncoding fromEncodingOld : Option Name) (exclude : List Name) : Prepared :=
+  prepareMarkup C m (effectiveFromEncoding fromEncoding fromEncodingOld) exclude
 
 end BS.EncodingIn
